@@ -68,9 +68,12 @@ def run(repo, res):
     res.count('text_searched_binders', n3, floor=5)
     # fallback of the text search is the statement start
     fid = repo.method(SCOPE, 'SourceScope', 'find_id_loc')
-    last = fid.body[-1]
-    res.check('C11-R3', 'find_id_loc fallback', isinstance(last, ast.Return) and unparse(last.value) == 'start',
-              SCOPE, last.lineno, 'when the identifier is not found find_id_loc must fall back to the statement start')
+    frets = [r for r in ast.walk(fid) if isinstance(r, ast.Return) and r.value is not None]
+    fallback = [r for r in frets if unparse(r.value) == 'start']
+    other = [r for r in frets if unparse(r.value) != 'start']
+    res.check('C11-R3', 'find_id_loc fallback', bool(fallback) and len(other) == 1, SCOPE, fid.lineno,
+              'find_id_loc must return either the found position or, when the identifier is not found, the statement start '
+              '(returns: %s)' % [unparse(r.value)[:40] for r in frets])
 
     # the delimiter sets of the text search must not contain identifier characters: otherwise a longer identifier that
     # merely starts or ends with the searched name is accepted as the name
@@ -116,14 +119,8 @@ def run(repo, res):
                   nontrivial=False)
     res.count('declared_at_uses', len(uses), floor=2)
     lint = repo.module_func(LINTER, 'lint')
-    ok = False
-    for nd in ast.walk(lint):
-        if isinstance(nd, ast.Tuple) and len(nd.elts) >= 4 and unparse(nd.elts[0]) == 'w':
-            t = [unparse(e) for e in nd.elts]
-            who = t[2].split('.declared_at')[0]
-            ok = t[2] == who + '.declared_at[0]' and t[3] == who + '.declared_at[1]' and (who + '.name') in t[1]
-    res.check('C11-R2', 'lint warning fields', ok, LINTER, lint.lineno,
-              'an unused-name report must carry the binding\'s own name and its declared_at line and column')
+    from .. import api_model
+    api_model.apply(res, api_model.lint_model(repo), {'fields': 'C11-R2', 'once': 'C11-R2'}, LINTER, lint.lineno)
     loc = repo.module_func(ASSIST, 'location')
     # the pairing may live in location itself or in a module-level helper it calls
     pairs = [c for c in ast.walk(repo.tree(ASSIST)) if isinstance(c, ast.Call) and unparse(c.func) == '_loc']
@@ -139,11 +136,7 @@ def run(repo, res):
         sorted(unparse(v) for v in r.value.values) == ['filename', 'location']
     res.check('C11-R2', '_loc copies', ok, ASSIST, lf.lineno, '_loc must return the position and file unmodified',
               nontrivial=False)
-    an = repo.method(SCOPE, 'SourceScope', 'all_names')
-    ys = [n for n in ast.walk(an) if isinstance(n, ast.Yield)]
-    ok = len(ys) == 1 and unparse(ys[0].value) == 'flow, name' or (len(ys) == 1 and 'name' in unparse(ys[0].value))
-    res.check('C11-R2', 'all_names yields the binding objects', ok, SCOPE, an.lineno,
-              'all_names must enumerate the stored binding objects themselves', nontrivial=False)
+    api_model.apply(res, api_model.all_names_model(repo), {'all_names': 'C11-R2'}, SCOPE, 0)
     res.note('import aliases, def and class names obtain their position by text search (find_id_loc): C11 is not '
              'decided for them by this family (e.g. `async def d():` or `from foo import bar as foo` layouts).')
     res.assumptions.extend(['CPython: (lineno, col_offset) of Name/arg/ExceptHandler nodes is the first character of '
